@@ -4,3 +4,4 @@ import FpVerif.Properties.C06
 #print axioms Fp.C06.run_filter
 #print axioms Fp.C06.attribution
 #print axioms Fp.C06.no_shared_channel
+#print axioms Fp.C06.per_connection_code_writes_no_shared_state
